@@ -7,6 +7,7 @@ import (
 	"fmt"
 	"sort"
 	"strings"
+	"sync"
 	"testing"
 	"time"
 
@@ -32,15 +33,16 @@ var c42Assumptions = []string{
 }
 
 type c42Ctx struct {
-	r     *verifkit.Run
-	ci    int
-	oc    *opCase
-	env   map[string]string
-	via   string
+	r   *verifkit.Run
+	ci  int
+	oc  *opCase
+	env map[string]string
+	via string
+	tag string // class prefix: "" for the plain repeat, "after_fault_" for passes that follow an injected API failure
 }
 
 func (x *c42Ctx) replay(extra map[string]any) map[string]any {
-	m := map[string]any{"case": x.ci, "via": x.via, "env": x.env}
+	m := map[string]any{"case": x.ci, "via": x.via, "env": x.env, "phase": x.tag}
 	for k, v := range opDescribe(x.oc) {
 		m[k] = v
 	}
@@ -63,47 +65,133 @@ func (x *c42Ctx) judgePass(n int, writes []opWrite, before, after map[string]opO
 			continue
 		}
 		verb := strings.SplitN(w.Verb, "/", 2)[0]
-		r.Violation(fmt.Sprintf("later_pass_%s_%s", verb, w.Kind),
+		r.Violation(fmt.Sprintf("%slater_pass_%s_%s", x.tag, verb, w.Kind),
 			fmt.Sprintf("reconcile pass %d of an unchanged cluster performed %s on generated %s %s", n, w.Verb, w.Kind, w.Key),
 			x.replay(map[string]any{"pass": n, "writes": writes, "diff": opDiff(before, after, true)}))
 	}
-	if d := opDiff(before, after, true); len(d) > 0 {
-		kinds := map[string]bool{}
-		for _, line := range d {
-			f := strings.Fields(line)
-			if len(f) >= 2 {
-				kinds[f[1]] = true
-			}
-		}
-		var ks []string
-		for k := range kinds {
-			ks = append(ks, k)
-		}
-		sort.Strings(ks)
-		r.Violation("objects_changed_in_later_pass_"+strings.Join(ks, "+"),
-			fmt.Sprintf("generated objects differ after pass %d: %s", n, strings.Join(d, " | ")),
-			x.replay(map[string]any{"pass": n, "diff": d, "writes": writes}))
+	for kind, lines := range c42ByKind(opDiff(before, after, true)) {
+		r.Violation(x.tag+"objects_changed_in_later_pass_"+kind,
+			fmt.Sprintf("generated %s objects differ after pass %d: %s", kind, n, strings.Join(lines, " | ")),
+			x.replay(map[string]any{"pass": n, "diff": lines, "writes": writes}))
 	}
 }
 
-func (x *c42Ctx) judgeFresh(k int, base, fresh map[string]opObj) {
-	if d := opDiff(base, fresh, false); len(d) > 0 {
-		kinds := map[string]bool{}
-		for _, line := range d {
-			f := strings.Fields(line)
-			if len(f) >= 2 {
-				kinds[f[1]] = true
-			}
-		}
-		var ks []string
-		for k := range kinds {
-			ks = append(ks, k)
-		}
-		sort.Strings(ks)
-		x.r.Violation("fresh_renders_differ_"+strings.Join(ks, "+"),
-			fmt.Sprintf("render #%d of the same cluster and environment into a fresh API server differs: %s", k, strings.Join(d, " | ")),
-			x.replay(map[string]any{"render": k, "diff": d}))
+func c42FreshWhat(k int) string {
+	if k == 0 {
+		return "state reached by reconciling again after an injected API failure"
 	}
+	return fmt.Sprintf("render #%d into a fresh API server", k)
+}
+
+// c42ByKind groups opDiff lines ("content: Service ns/name ...") by object kind.
+func c42ByKind(diff []string) map[string][]string {
+	out := map[string][]string{}
+	for _, line := range diff {
+		f := strings.Fields(line)
+		kind := "unknown"
+		if len(f) >= 2 {
+			kind = f[1]
+		}
+		out[kind] = append(out[kind], line)
+	}
+	return out
+}
+
+func (x *c42Ctx) judgeFresh(k int, base, fresh map[string]opObj) {
+	for kind, lines := range c42ByKind(opDiff(base, fresh, false)) {
+		x.r.Violation(x.tag+"fresh_renders_differ_"+kind,
+			fmt.Sprintf("%s: %s objects differ from the reference render of the same cluster and environment: %s", c42FreshWhat(k), kind, strings.Join(lines, " | ")),
+			x.replay(map[string]any{"render": k, "diff": lines}))
+	}
+}
+
+// c42FaultPhase enumerates every point at which pass 1 can lose a write: for
+// each k-th create/update of a generated object and both failure modes
+// (rejected / applied-but-reported-failed) a fresh API server runs a failing
+// pass, then the operator reconciles again without faults. The state reached
+// must be the fault-free render (content), and one more pass must be a no-op.
+func c42FaultPhase(ctx context.Context, t *testing.T, x *c42Ctx, newClient func(*opRecorder) client.Client, run func(client.Client) error, base map[string]opObj, nWrites int) {
+	r := x.r
+	fx := *x
+	fx.tag = "after_fault_"
+	for mode := 1; mode <= 2; mode++ {
+		for k := 1; k <= nWrites; k++ {
+			rec := &opRecorder{FaultAt: k, FaultMode: mode}
+			c := newClient(rec)
+			err := run(c)
+			if !rec.Fired {
+				r.Count("fault_points_not_reached", 1)
+				continue
+			}
+			r.Count(fmt.Sprintf("faults_injected_mode%d", mode), 1)
+			if err == nil {
+				r.Count("obs_injected_failure_swallowed", 1) // the operator ignored a failed write
+			}
+			rec.disarm()
+			rec.take()
+			if err := run(c); err != nil {
+				r.Inconclusive(fmt.Sprintf("case %d: reconcile after injected failure (mode %d, write %d) failed: %v", x.ci, mode, k, err))
+				continue
+			}
+			rec.take()
+			s := opSnapshot(ctx, t, c)
+			fx.via = fmt.Sprintf("%s; write #%d of pass 1 failed (mode %d), then reconciled again", x.via, k, mode)
+			fx.judgeFresh(0, base, s)
+			if err := run(c); err != nil {
+				r.Inconclusive(fmt.Sprintf("case %d: pass after recovery failed: %v", x.ci, err))
+				continue
+			}
+			fx.judgePass(3, rec.take(), s, opSnapshot(ctx, t, c))
+			r.Count("fault_recoveries_judged", 1)
+		}
+	}
+}
+
+// c42HistoryProbe is an observation, not part of the verdict: the stored
+// cluster is edited to a second generated spec (same name) and reconciled; the
+// result is compared with a fresh render of that second spec. Differences are
+// fields the operator never clears (the statement quantifies over one
+// unchanged resource, so they are only counted and sampled).
+func c42HistoryProbe(ctx context.Context, t *testing.T, x *c42Ctx, c client.Client, newClient func(*opRecorder, *opCase) client.Client, run func(client.Client) error, oc2 *opCase) {
+	r := x.r
+	key := types.NamespacedName{Namespace: x.oc.Cluster.Namespace, Name: x.oc.Cluster.Name}
+	var stored kafscalev1alpha1.KafscaleCluster
+	if err := c.Get(ctx, key, &stored); err != nil {
+		return
+	}
+	stored.Spec = *oc2.Cluster.Spec.DeepCopy()
+	if err := c.Update(ctx, &stored); err != nil {
+		return
+	}
+	if err := run(c); err != nil {
+		return
+	}
+	edited := opSnapshot(ctx, t, c)
+	fc := newClient(&opRecorder{}, oc2)
+	if err := run(fc); err != nil {
+		return
+	}
+	fresh := opSnapshot(ctx, t, fc)
+	r.Count("obs_spec_edits_probed", 1)
+	d := opDiff(fresh, edited, false)
+	if len(d) == 0 {
+		return
+	}
+	r.Count("obs_spec_edit_leaves_history_dependent_objects", 1)
+	for kind := range c42ByKind(d) {
+		r.Seen("obs_history_dependent_kinds", kind)
+	}
+	c42HistoryNotes.Lock()
+	if len(c42HistoryNotes.lines) < 6 {
+		c42HistoryNotes.lines = append(c42HistoryNotes.lines, d[0])
+		r.Note("obs_history_dependent_examples", append([]string(nil), c42HistoryNotes.lines...))
+	}
+	c42HistoryNotes.Unlock()
+}
+
+var c42HistoryNotes struct {
+	sync.Mutex
+	lines []string
 }
 
 // unrelated objects that must not influence what is rendered for the cluster
@@ -147,11 +235,12 @@ func c42Generated(writes []opWrite, verb string) int {
 
 func TestVerifC42Parts(t *testing.T) {
 	r := verifkit.Start(t, "C42", "parts")
-	defer r.Finish("[EnsureEtcd(managed) + broker/LFS/HPA sub-reconcilers in Reconcile's order; S3 pre-flight, etcd health poll, publish and status writes left out because managed-etcd endpoints are not reachable offline] "+c42Rule, c42Assumptions...)
+	defer r.Finish("[EnsureEtcd(managed) + broker/LFS/HPA sub-reconcilers in Reconcile's order; S3 pre-flight, etcd health poll, publish and status writes left out because managed-etcd endpoints are not reachable offline] "+c42Rule+" ;; [fault enumeration on the first cases] for every k-th create/update of pass 1 and both failure modes (rejected; applied but reported failed) a fresh server runs the failing pass, then reconciles again: the state reached must equal the fault-free render and the following pass must write nothing ;; [observation only, never a violation] the cluster is then edited to a second spec and compared with a fresh render of it (counters obs_*)", c42Assumptions...)
 	opRegisterEnv(t)
 	scheme := opScheme(t)
 	ctx := context.Background()
-	n := r.N(150, 2500)
+	n := r.N(80, 1500)
+	nFault := r.N(6, 120) // the first directed case and the first generated ones also get the fault enumeration
 	for ci := 0; ci < n; ci++ {
 		rng := r.Rand(ci)
 		env := opGenEnv(rng)
@@ -205,7 +294,7 @@ func TestVerifC42Parts(t *testing.T) {
 			prev = s
 		}
 		// fresh renders of the same input: empty server, then a server with bystanders
-		for k := 1; k <= 3 && ok; k++ {
+		for k := 1; k <= 2 && ok; k++ {
 			objs := opObjects(oc)
 			if k >= 2 {
 				objs = append(objs, c42Bystanders(oc)...)
@@ -219,6 +308,17 @@ func TestVerifC42Parts(t *testing.T) {
 			c42DropBystanders(fs)
 			x.judgeFresh(k, s1, fs)
 			r.Count("fresh_renders_compared", 1)
+		}
+		if ok && (ci == 0 || (ci >= len(opDirected()) && ci < len(opDirected())+nFault-1)) {
+			nw := c42Generated(w1, "create") + c42Generated(w1, "update")
+			c42FaultPhase(ctx, t, x, func(rec *opRecorder) client.Client { return opNewClient(scheme, rec, opObjects(oc)...) }, run, s1, nw)
+			r.Count("fault_cases", 1)
+		}
+		if ok {
+			oc2 := opGenCluster(r.Rand(1<<21+ci), opGenOpts{})
+			oc2.Cluster.Namespace, oc2.Cluster.Name, oc2.Cluster.UID = oc.Cluster.Namespace, oc.Cluster.Name, oc.Cluster.UID
+			oc2.Topics, oc2.Decoys = nil, nil
+			c42HistoryProbe(ctx, t, x, c, func(rec *opRecorder, o *opCase) client.Client { return opNewClient(scheme, rec, opObjects(o)...) }, run, oc2)
 		}
 		if oc.Cluster.Spec.LfsProxy.Enabled {
 			r.Count("cases_lfs_enabled", 1)
@@ -236,8 +336,9 @@ func TestVerifC42Parts(t *testing.T) {
 			r.Sample(map[string]any{"case": opDescribe(oc), "env": env, "generated_objects": keys})
 		}
 	}
-	r.Floor("later_passes_judged", int64(n))
-	r.Floor("fresh_renders_compared", int64(n))
+	r.Floor("later_passes_judged", int64(2*n*9/10))
+	r.Floor("fresh_renders_compared", int64(2*n*9/10))
+	r.Floor("fault_recoveries_judged", int64(nFault*10))
 	r.Floor("cases_lfs_enabled", 10)
 	r.Floor("cases_with_operator_env", 10)
 	r.Floor("pass1_creates", int64(5*n))
